@@ -1,5 +1,6 @@
 import Ptn.C02.ContractWF
 import Ptn.C02.SplitSpec
+import Ptn.C02.SplitLogical
 /-! `split_nodes` preserves well-formedness of the TTN model: refinement of the dictionary
 manipulations to the pure graph operation `splitS`.  Core Lean only. -/
 namespace Ptn.C02
@@ -185,6 +186,21 @@ theorem nodup_allNeighbourIds (ls : TTN.LegSpec) (hnd : ls.childLegs.Nodup)
     simp only [List.singleton_append, List.nodup_cons]
     exact ⟨hp p hpl, hnd⟩
 
+/-- The label-level description of the two nodes created by `split_nodes` (`a` keeps the parent or the
+    root role, `b` is its new first child): their logical axes `La`, `Lb` in terms of the logical axes `L`
+    of the split node – the new bond `⟨nextLabel, bd⟩` at both ends, every other virtual leg with the axis
+    that led to that neighbour before, the open axes those selected by the leg specification, in its order. -/
+def SplitLab (t : TTN) (id : Id) (X : NodeS) (outL inL : TTN.LegSpec) (outId : Id) (bd : Nat)
+    (a b : Id) (aCh bCh : List Id) (na nb : NodeS) (Ta Tb : Tensor) : Prop :=
+  ∃ L La Lb, t.logical id = some L ∧ transposeT Ta na.perm = some La ∧ transposeT Tb nb.perm = some Lb ∧
+    (∀ x ax, (x, ax) ∈ na.neighbours.zip La ↔
+      ((x = b ∧ ax = ⟨t.nextLabel, bd⟩) ∨ ((X.parent = some x ∨ x ∈ aCh) ∧ legAx X L x = some ax))) ∧
+    (∀ x ax, (x, ax) ∈ nb.neighbours.zip Lb ↔
+      ((x = a ∧ ax = ⟨t.nextLabel, bd⟩) ∨ (x ∈ bCh ∧ legAx X L x = some ax))) ∧
+    La.drop na.nvirt = pick L (if a = outId then outL.openLegs else inL.openLegs) ∧
+    Lb.drop nb.nvirt = pick L (if b = outId then outL.openLegs else inL.openLegs) ∧
+    (outL.openLegs ++ inL.openLegs).Perm (List.range' X.nvirt (X.nlegs - X.nvirt))
+
 theorem split_final {t t' : TTN} {id : Id} {X : NodeS} {outL inL : TTN.LegSpec} {outId inId : Id}
     {bd : Nat} (h : t.WF) (adm : SplitAdm t id X outL inL outId inId)
     (hs : t.splitNodes id outL inL outId inId bd = some t') :
@@ -203,7 +219,8 @@ theorem split_final {t t' : TTN} {id : Id} {X : NodeS} {outL inL : TTN.LegSpec} 
                                 else if k = id then none else dget t.tensors k) ∧
       t'.root = (if X.parent = none then some a else t.root) ∧
       ((a = outId ∧ (outL.parentLeg.isSome = true ∨ outL.isRoot = true)) ∨
-       (a = inId ∧ (inL.parentLeg.isSome = true ∨ inL.isRoot = true))) := by
+       (a = inId ∧ (inL.parentLeg.isSome = true ∨ inL.isRoot = true))) ∧
+      SplitLab t id X outL inL outId bd a b aCh bCh na nb Ta Tb := by
   unfold TTN.splitNodes at hs
   by_cases hoi : outId = inId
   · simp [hoi, bind, Option.bind] at hs
@@ -323,6 +340,7 @@ theorem split_final {t t' : TTN} {id : Id} {X : NodeS} {outL inL : TTN.LegSpec} 
                             (if X.parent = none then some a else t.root) →
                           ((a = outId ∧ (outL.parentLeg.isSome = true ∨ outL.isRoot = true)) ∨
                             (a = inId ∧ (inL.parentLeg.isSome = true ∨ inL.isRoot = true))) →
+                          SplitLab t id X outL inL outId bd a b aCh bCh na nb Ta Tb →
                           ∃ a b aCh bCh na nb Ta Tb,
                             ((a = outId ∧ b = inId ∧ aCh = outL.childLegs ∧ bCh = inL.childLegs) ∨
                              (a = inId ∧ b = outId ∧ aCh = inL.childLegs ∧ bCh = outL.childLegs)) ∧
@@ -338,8 +356,9 @@ theorem split_final {t t' : TTN} {id : Id} {X : NodeS} {outL inL : TTN.LegSpec} 
                                                       else if k = id then none else dget t.tensors k) ∧
                             t'.root = (if X.parent = none then some a else t.root) ∧
                             ((a = outId ∧ (outL.parentLeg.isSome = true ∨ outL.isRoot = true)) ∨
-                              (a = inId ∧ (inL.parentLeg.isSome = true ∨ inL.isRoot = true))) := by
-                        intro a b aCh bCh na nb Ta Tb hcfg hNa hNb hTa hTb p1 p2 p3 p4 w1 w2 s1 s2 nd1 nd2 hroot5 hside
+                              (a = inId ∧ (inL.parentLeg.isSome = true ∨ inL.isRoot = true))) ∧
+                            SplitLab t id X outL inL outId bd a b aCh bCh na nb Ta Tb := by
+                        intro a b aCh bCh na nb Ta Tb hcfg hNa hNb hTa hTb p1 p2 p3 p4 w1 w2 s1 s2 nd1 nd2 hroot5 hside hlab
                         obtain ⟨hN3, hten3, hroot3, _⟩ := rnisn_eq nd1 hr3
                         obtain ⟨hN4, hten4, hroot4, _⟩ := rnisn_eq nd2 hr4
                         obtain ⟨hnodes5, hten5, hroot5'⟩ := setRoot_eq hr5
@@ -476,7 +495,7 @@ theorem split_final {t t' : TTN} {id : Id} {X : NodeS} {outL inL : TTN.LegSpec} 
                           rcases hab_ids with ⟨_, e2⟩ | ⟨_, e2⟩
                           · exact Or.inr e2
                           · exact Or.inl e2
-                        refine ⟨a, b, aCh, bCh, na, nb, Ta, Tb, ?_, hab, ?_, ?_, p1, p2, p3, p4, w1, w2, s1, s2, ?_, ?_, ?_, ?_, hside⟩
+                        refine ⟨a, b, aCh, bCh, na, nb, Ta, Tb, ?_, hab, ?_, ?_, p1, p2, p3, p4, w1, w2, s1, s2, ?_, ?_, ?_, ?_, hside, hlab⟩
                         · rcases hcfg with ⟨e1, e2, e3, e4, _⟩ | ⟨e1, e2, e3, e4, _⟩
                           · exact Or.inl ⟨e1, e2, e3, e4⟩
                           · exact Or.inr ⟨e1, e2, e3, e4⟩
@@ -564,6 +583,30 @@ theorem split_final {t t' : TTN} {id : Id} {X : NodeS} {outL inL : TTN.LegSpec} 
                         List.nodup_cons.mpr ⟨fun hm => hin_notin ((hmemX inId).mpr (Or.inl hm)), hond⟩
                       have hnd_out_in : (outId :: inL.childLegs).Nodup :=
                         List.nodup_cons.mpr ⟨fun hm => hout_notin ((hmemX outId).mpr (Or.inr hm)), hind⟩
+                      -- the two arrays in blocks, the logical tensor of the split node
+                      obtain ⟨Om, Im, hOm, hIm, houtT, hinT⟩ := splitAxes_blocks hsa
+                      obtain ⟨PaO, Oc, Oo, cvO, hOmB, hPaO, hcvO, hOc, hOo⟩ := side_blocks hoint hOm
+                      obtain ⟨PaI, Ic, Io, cvI, hImB, hPaI, hcvI, hIc, hIo⟩ := side_blocks hiint hIm
+                      obtain ⟨hOcl, hOcm⟩ := zip_children_axes (L := L) hcvO hOc
+                      obtain ⟨hIcl, hIcm⟩ := zip_children_axes (L := L) hcvI hIc
+                      have hOcm' : ∀ x ax, (x, ax) ∈ outL.childLegs.zip Oc ↔
+                          (x ∈ outL.childLegs ∧ legAx X L x = some ax) := hOcm
+                      have hIcm' : ∀ x ax, (x, ax) ∈ inL.childLegs.zip Ic ↔
+                          (x ∈ inL.childLegs ∧ legAx X L x = some ax) := hIcm
+                      have hlogL : t.logical id = some L := by rw [logical_eq hXN e2]; exact e3
+                      have hpickO : pick L outL.openLegs = Oo := pick_of_mapM hOo
+                      have hpickI : pick L inL.openLegs = Io := pick_of_mapM hIo
+                      have hopen : (outL.openLegs ++ inL.openLegs).Perm
+                          (List.range' X.nvirt (X.nlegs - X.nvirt)) := by
+                        obtain ⟨moved, hmoved⟩ := splitAxes_transpose hsa
+                        refine split_open_perm (X := X) hXnd ?_ (transposeT_length e3).1 (h.node id X hXN).virt
+                          hchperm ?_ hoint hiint hmoved
+                        · intro c hc e
+                          obtain ⟨_, _, _, _, _, q⟩ := hgp c e
+                          exact q hc
+                        · rcases adm.parent with ⟨p, hXp, _, _, hcase⟩ | ⟨hXp, hop, hip, _⟩
+                          · exact Or.inl ⟨p, hXp, hcase⟩
+                          · exact Or.inr ⟨hXp, hop, hip⟩
                       rcases adm.parent with ⟨p, hXp, hro, hri, hcase⟩ | ⟨hXp, hop, hip, hcase⟩
                       · obtain ⟨_, _, _, _, _, hp_notin⟩ := hgp p hXp
                         rcases hcase with ⟨hop, hip⟩ | ⟨hop, hip⟩
@@ -585,6 +628,33 @@ theorem split_final {t t' : TTN} {id : Id} {X : NodeS} {outL inL : TTN.LegSpec} 
                             (nodup_allNeighbourIds inL hind (fun q hq => by rw [hip] at hq; simp at hq))
                             (by simp [hri, hro, hXp])
                             (Or.inl ⟨rfl, Or.inl (by rw [hop]; rfl)⟩)
+                            (by
+                              obtain ⟨a0, q2, q3⟩ : ∃ a0, PaO = [a0] ∧ L[0]? = some a0 := by
+                                rcases hPaO with ⟨q, _⟩ | ⟨p', a0, _, q2, q3⟩
+                                · rw [hop] at q; simp at q
+                                · exact ⟨a0, q2, q3⟩
+                              have q4 : PaI = [] := by
+                                rcases hPaI with ⟨_, q4⟩ | ⟨p'', _, q5, _⟩
+                                · exact q4
+                                · rw [hip] at q5; simp at q5
+                              subst q2 q4
+                              have houtT' : outT = a0 :: (Oc ++ Oo) ++ [⟨t.nextLabel, bd⟩] := by
+                                rw [houtT, hOmB]; simp
+                              have hinT' : inT = ⟨t.nextLabel, bd⟩ :: (Ic ++ Io) := by rw [hinT, hImB]; simp
+                              obtain ⟨on', u1, _, _, u4, u5, u6⟩ := out_node_parent_logical outL inL inId p
+                                ⟨t.nextLabel, bd⟩ a0 Oc Oo hop hro hri hip hOcl hnd_in_out
+                              rw [← houtT', hbo] at u1; simp only [Option.some.injEq] at u1; subst u1
+                              obtain ⟨in', v1, _, _, v4, v5, v6⟩ := in_node_child_logical inL outL outId
+                                ⟨t.nextLabel, bd⟩ Ic Io hip hri hIcl hind
+                              rw [← hinT', hbi] at v1; simp only [Option.some.injEq] at v1; subst v1
+                              obtain ⟨k1, k2⟩ := keeper_legs (X := X) (L := L) (bond := ⟨t.nextLabel, bd⟩) (Ao := Oo)
+                                (Pa := [a0]) (by rw [u4, hXp]) u5 (Or.inr ⟨p, a0, hXp, rfl, q3⟩) hOcl hOcm'
+                                (by rw [hXp]; intro e; simp at e; obtain ⟨_, _, _, _, q, _⟩ := hgp p hXp; exact q e)
+                              obtain ⟨m1, m2⟩ := other_legs (X := X) (L := L) (bond := ⟨t.nextLabel, bd⟩) (Bo := Io)
+                                v4 v5 hIcl hIcm'
+                              refine ⟨L, _, _, hlogL, by rw [houtT']; exact u6, by rw [hinT']; exact v6, k1, m1, ?_, ?_, hopen⟩
+                              · rw [if_pos rfl, hpickO]; exact k2
+                              · rw [if_neg hio, hpickI]; exact m2)
                         · -- in keeps the parent
                           obtain ⟨inn, i1, i2, i3, i4, i5⟩ := in_node_parent_facts inT inL outL outId p
                             inL.openLegs.length hip hri (by rw [hlenI, hli, hip]; simp; omega) hnd_out_in
@@ -604,6 +674,33 @@ theorem split_final {t t' : TTN} {id : Id} {X : NodeS} {outL inL : TTN.LegSpec} 
                               exact hp_notin ((hmemX p).mpr (Or.inr hm))))
                             (by simp [hri, hro, hXp])
                             (Or.inr ⟨rfl, Or.inl (by rw [hip]; rfl)⟩)
+                            (by
+                              obtain ⟨a0, q4, q3⟩ : ∃ a0, PaI = [a0] ∧ L[0]? = some a0 := by
+                                rcases hPaI with ⟨q, _⟩ | ⟨p', a0, _, q2, q3⟩
+                                · rw [hip] at q; simp at q
+                                · exact ⟨a0, q2, q3⟩
+                              have q2 : PaO = [] := by
+                                rcases hPaO with ⟨_, q⟩ | ⟨p', _, q5, _⟩
+                                · exact q
+                                · rw [hop] at q5; simp at q5
+                              subst q2 q4
+                              have houtT' : outT = Oc ++ Oo ++ [⟨t.nextLabel, bd⟩] := by
+                                rw [houtT, hOmB]; simp
+                              have hinT' : inT = ⟨t.nextLabel, bd⟩ :: a0 :: (Ic ++ Io) := by rw [hinT, hImB]; simp
+                              obtain ⟨in', v1, _, _, v4, v5, v6⟩ := in_node_parent_logical inL outL outId p
+                                ⟨t.nextLabel, bd⟩ a0 Ic Io hip hri hIcl hnd_out_in
+                              rw [← hinT', hbi] at v1; simp only [Option.some.injEq] at v1; subst v1
+                              obtain ⟨on', u1, _, _, u4, u5, u6⟩ := out_node_child_logical outL inL inId
+                                ⟨t.nextLabel, bd⟩ Oc Oo hop hro (Or.inr (by rw [hip]; rfl)) hOcl hond
+                              rw [← houtT', hbo] at u1; simp only [Option.some.injEq] at u1; subst u1
+                              obtain ⟨k1, k2⟩ := keeper_legs (X := X) (L := L) (bond := ⟨t.nextLabel, bd⟩) (Ao := Io)
+                                (Pa := [a0]) (by rw [v4, hXp]) v5 (Or.inr ⟨p, a0, hXp, rfl, q3⟩) hIcl hIcm'
+                                (by rw [hXp]; intro e; simp at e; obtain ⟨_, _, _, q, _, _⟩ := hgp p hXp; exact q e)
+                              obtain ⟨m1, m2⟩ := other_legs (X := X) (L := L) (bond := ⟨t.nextLabel, bd⟩) (Bo := Oo)
+                                u4 u5 hOcl hOcm'
+                              refine ⟨L, _, _, hlogL, by rw [hinT']; exact v6, by rw [houtT']; exact u6, k1, m1, ?_, ?_, hopen⟩
+                              · rw [if_neg hio, hpickI]; exact k2
+                              · rw [if_pos rfl, hpickO]; exact m2)
                       · rcases hcase with ⟨hro, hri⟩ | ⟨hro, hri⟩
                         · -- out becomes the root
                           obtain ⟨on, o1, o2, o3, o4, o5⟩ := out_node_root_facts outT outL inL inId
@@ -621,6 +718,33 @@ theorem split_final {t t' : TTN} {id : Id} {X : NodeS} {outL inL : TTN.LegSpec} 
                             (nodup_allNeighbourIds inL hind (fun q hq => by rw [hip] at hq; simp at hq))
                             (by simp [hri, hro, hXp])
                             (Or.inl ⟨rfl, Or.inr hro⟩)
+                            (by
+                              have q2 : PaO = [] := by
+                                rcases hPaO with ⟨_, q⟩ | ⟨p', _, q5, _⟩
+                                · exact q
+                                · rw [hop] at q5; simp at q5
+                              have q4 : PaI = [] := by
+                                rcases hPaI with ⟨_, q⟩ | ⟨p'', _, q5, _⟩
+                                · exact q
+                                · rw [hip] at q5; simp at q5
+                              subst q2 q4
+                              have houtT' : outT = Oc ++ Oo ++ [⟨t.nextLabel, bd⟩] := by
+                                rw [houtT, hOmB]; simp
+                              have hinT' : inT = ⟨t.nextLabel, bd⟩ :: (Ic ++ Io) := by rw [hinT, hImB]; simp
+                              obtain ⟨on', u1, _, _, u4, u5, u6⟩ := out_node_root_logical outL inL inId
+                                ⟨t.nextLabel, bd⟩ Oc Oo hop hro hri hip hOcl hnd_in_out
+                              rw [← houtT', hbo] at u1; simp only [Option.some.injEq] at u1; subst u1
+                              obtain ⟨in', v1, _, _, v4, v5, v6⟩ := in_node_child_logical inL outL outId
+                                ⟨t.nextLabel, bd⟩ Ic Io hip hri hIcl hind
+                              rw [← hinT', hbi] at v1; simp only [Option.some.injEq] at v1; subst v1
+                              obtain ⟨k1, k2⟩ := keeper_legs (X := X) (L := L) (bond := ⟨t.nextLabel, bd⟩) (Ao := Oo)
+                                (Pa := []) (by rw [u4, hXp]) u5 (Or.inl ⟨hXp, rfl⟩) hOcl hOcm'
+                                (by rw [hXp]; simp)
+                              obtain ⟨m1, m2⟩ := other_legs (X := X) (L := L) (bond := ⟨t.nextLabel, bd⟩) (Bo := Io)
+                                v4 v5 hIcl hIcm'
+                              refine ⟨L, _, _, hlogL, by rw [houtT']; exact u6, by rw [hinT']; exact v6, k1, m1, ?_, ?_, hopen⟩
+                              · rw [if_pos rfl, hpickO]; exact k2
+                              · rw [if_neg hio, hpickI]; exact m2)
                         · -- in becomes the root
                           obtain ⟨inn, i1, i2, i3, i4, i5⟩ := in_node_root_facts inT inL outL outId
                             inL.openLegs.length hip hri hop (by rw [hlenI, hli, hip]; simp; omega) hnd_out_in
@@ -637,13 +761,40 @@ theorem split_final {t t' : TTN} {id : Id} {X : NodeS} {outL inL : TTN.LegSpec} 
                             (nodup_allNeighbourIds inL hind (fun q hq => by rw [hip] at hq; simp at hq))
                             (by simp [hri, hXp])
                             (Or.inr ⟨rfl, Or.inr hri⟩)
+                            (by
+                              have q2 : PaO = [] := by
+                                rcases hPaO with ⟨_, q⟩ | ⟨p', _, q5, _⟩
+                                · exact q
+                                · rw [hop] at q5; simp at q5
+                              have q4 : PaI = [] := by
+                                rcases hPaI with ⟨_, q⟩ | ⟨p'', _, q5, _⟩
+                                · exact q
+                                · rw [hip] at q5; simp at q5
+                              subst q2 q4
+                              have houtT' : outT = Oc ++ Oo ++ [⟨t.nextLabel, bd⟩] := by
+                                rw [houtT, hOmB]; simp
+                              have hinT' : inT = ⟨t.nextLabel, bd⟩ :: (Ic ++ Io) := by rw [hinT, hImB]; simp
+                              obtain ⟨in', v1, _, _, v4, v5, v6⟩ := in_node_root_logical inL outL outId
+                                ⟨t.nextLabel, bd⟩ Ic Io hip hri hop hIcl hnd_out_in
+                              rw [← hinT', hbi] at v1; simp only [Option.some.injEq] at v1; subst v1
+                              obtain ⟨on', u1, _, _, u4, u5, u6⟩ := out_node_child_logical outL inL inId
+                                ⟨t.nextLabel, bd⟩ Oc Oo hop hro (Or.inl hri) hOcl hond
+                              rw [← houtT', hbo] at u1; simp only [Option.some.injEq] at u1; subst u1
+                              obtain ⟨k1, k2⟩ := keeper_legs (X := X) (L := L) (bond := ⟨t.nextLabel, bd⟩) (Ao := Io)
+                                (Pa := []) (by rw [v4, hXp]) v5 (Or.inl ⟨hXp, rfl⟩) hIcl hIcm'
+                                (by rw [hXp]; simp)
+                              obtain ⟨m1, m2⟩ := other_legs (X := X) (L := L) (bond := ⟨t.nextLabel, bd⟩) (Bo := Oo)
+                                u4 u5 hOcl hOcm'
+                              refine ⟨L, _, _, hlogL, by rw [hinT']; exact v6, by rw [houtT']; exact u6, k1, m1, ?_, ?_, hopen⟩
+                              · rw [if_neg hio, hpickI]; exact k2
+                              · rw [if_pos rfl, hpickO]; exact m2)
 
 /-- **`split_nodes` keeps the network well-formed** (any splitting function, any admissible leg
     specifications and identifiers). -/
 theorem split_nodes_wf_aux {t t' : TTN} {id : Id} {X : NodeS} {outL inL : TTN.LegSpec} {outId inId : Id}
     {bd : Nat} (h : t.WF) (adm : SplitAdm t id X outL inL outId inId)
     (hs : t.splitNodes id outL inL outId inId bd = some t') : t'.WF := by
-  obtain ⟨a, b, aCh, bCh, na, nb, Ta, Tb, hcfg, hab, hNa, hNb, p1, p2, p3, p4, w1, w2, s1, s2, hid, hby, hT, hR, _⟩ :=
+  obtain ⟨a, b, aCh, bCh, na, nb, Ta, Tb, hcfg, hab, hNa, hNb, p1, p2, p3, p4, w1, w2, s1, s2, hid, hby, hT, hR, _, _⟩ :=
     split_final h adm hs
   have hXN := adm.node
   have hSX : t.S id = some (X.parent, X.children) := TTN.S_eq hXN
